@@ -29,7 +29,7 @@ namespace nostd = opentelemetry::nostd;
 // push a crashing child over the per-execution alarm. Symbolization is therefore switched off unless the process
 // was started with --replay.  Called by the ASan runtime before main(): raw system calls and plain loops only.
 #include <sys/syscall.h>
-extern "C" const char *__asan_default_options() {
+extern "C" __attribute__((no_sanitize_address, no_sanitize("undefined"))) const char *__asan_default_options() {
   static char buf[4096];
   long fd = syscall(SYS_open, "/proc/self/cmdline", 0 /* O_RDONLY */, 0);
   if (fd < 0) return "";
